@@ -35,7 +35,16 @@ fn main() {
     common::install_panic_hook();
     sim::logsub::install();
     let mut report = Report::new(&args.prop);
-    let known = props::run(&args, &mut report);
+    // a panic that escapes every guard (in a monitor, a model, or in library code running outside a guarded
+    // poll) ends the shard: say where it came from, the runner reports the abnormal exit with this text
+    let known = match std::panic::catch_unwind(std::panic::AssertUnwindSafe(|| props::run(&args, &mut report))) {
+        Ok(k) => k,
+        Err(_) => {
+            let (msg, loc) = common::take_last_panic().unwrap_or_else(|| ("<unknown>".into(), "<unknown>".into()));
+            eprintln!("escaped-panic at {}: {}", loc, msg);
+            std::process::exit(101);
+        }
+    };
     if !known {
         eprintln!("unknown property {}", args.prop);
         std::process::exit(3);
